@@ -30,7 +30,7 @@ def gen(chk, sizes, per_shape=0):
 
 
 def judge_tree(chk, case, toks, fault):
-    base = {"kids": case["kids"], "reps": case["reps"], "file_hex": bytes(case["bytes"]).hex()}
+    base = {"kids": case["kids"], "reps": case["reps"], "root_repetition": case.get("rootRep", 255), "file_hex": bytes(case["bytes"]).hex()}
     shape = "nested" if any(k > 0 for k in case["kids"]) else "flat"
     if fault:
         chk.violation("schema:fault:" + fault, "fault opening schema file", base)
@@ -161,7 +161,7 @@ def run(chk, tier, replay):
         fault_of[cid] = "leak"
     for i, c in enumerate(cases):
         cid = "s%d" % i
-        chk.count(("tree", c["kids"], c["reps"]), any(k > 0 for k in c["kids"]))
+        chk.count(("tree", c["kids"], c["reps"], c.get("rootRep", 255)), any(k > 0 for k in c["kids"]))
         judge_tree(chk, c, res.get(cid), fault_of.get(cid))
     for i in range(0, len(cases), max(1, len(cases) // 3)):
         c = cases[i]
